@@ -50,3 +50,60 @@ Qed.
 Print Assumptions C17_try_never_blocks.
 Print Assumptions C17_rlock_blocked_only_by_stop.
 Print Assumptions C17_single_queue_slot.
+
+(** ---- trace-level statements (what holds once Stop has RETURNED, where an accepted task is,
+    backpressure and cancellation).
+    Vocabulary.
+    - [accepted x tr]: the trace contains the return of the submission of task x
+      with "accepted": Do / Execute returned, TryDo / TryExecute returned true.
+    - [returned x tr]: the submission of x has returned (any value).
+    - [results c tr x]: the results delivered to x's result channel so far:
+      those still in the channel, followed by those already received (the trace
+      records them: Await / PollRes returned a value).
+    - [res_ok x n r]: r is x's own value and n = 1, or r is the cancellation
+      result and n = 0 (n = number of executions of x).
+    - [stop_done c]: the state word is 2 and no thread is between Stop's CAS
+      and the end of its drain loop, i.e. the Stop call that won the CAS has
+      returned.  A second Stop call racing with the first returns at once
+      ([PoolSafeExamples.second_stop_returns_early]), so "some Stop call has
+      returned" alone is NOT enough; it is enough when no thread is inside a
+      Stop call any more, or when the programs contain at most one Stop.
+    - [Hwk x], [Hdr x], [H1 x]: number of worker goroutines holding x (taken
+      from the queue, not yet answered) / of drain loops holding x / of
+      workers executing x. *)
+From Garr Require Import Pool.PoolStopDone Pool.PoolAcct Pool.PoolHist Pool.PoolAfterStop Pool.PoolStopCount
+  Pool.PoolLateSubmit Pool.PoolSelect Pool.PoolTimers Pool.PoolLive Pool.PoolProgress Pool.PoolFacts.
+
+(** (B) C17 - a Do / Execute waiting at its select is blocked exactly while the queue is full and
+    neither the pool's nor the task's context is done; when it fires, it fires on a context that
+    is cancelled or into the free queue slot *)
+Theorem C17_Do_select_enabled_when_cancelled : forall nw lim autostart choices clients nslots,
+  clients_ok clients -> forall sched i id,
+  let c := final (pool nw lim) (pool_cfg nw autostart choices clients nslots) sched in
+  at_pc c i (SubPush id) ->
+  exists t, get_task (c_sh c) id = Some t /\
+    p_closedflag (c_sh c) = false /\ p_qclosed (c_sh c) = false /\
+    (pstep nw lim (SubPush id) (c_sh c) = Blocked <->
+       p_poolctx (c_sh c) = false /\ ctx_done (c_sh c) (tk_ctx t) = false /\ length (p_queue (c_sh c)) = 1) /\
+    pstep nw lim (SubPush id) (c_sh c) <> Fault /\
+    (forall l' s', pstep nw lim (SubPush id) (c_sh c) = Next l' s' ->
+       (l' = SubFut KDo id true /\ p_poolctx (c_sh c) = true /\ p_queue s' = p_queue (c_sh c)) \/
+       (l' = SubFut KDo id false /\ ctx_done (c_sh c) (tk_ctx t) = true /\ p_queue s' = p_queue (c_sh c)) \/
+       (l' = SubRUnlock KDo /\ p_queue (c_sh c) = [] /\ p_queue s' = [id])).
+Proof. exact do_select_enabled_when_cancelled. Qed.
+
+(** ... and the delivery of the context error is never blocked: the task has no result yet, has not
+    been executed, and gets the cancellation result now (by [One_result_per_task] it stays its only
+    result and the task is never executed) *)
+Theorem C17_Cancelled_submission_delivers : forall nw lim autostart choices clients nslots,
+  clients_ok clients -> forall sched i k id b,
+  let c := final (pool nw lim) (pool_cfg nw autostart choices clients nslots) sched in
+  let tr := trace (pool nw lim) (pool_cfg nw autostart choices clients nslots) sched in
+  at_pc c i (SubFut k id b) ->
+  exists t, get_task (c_sh c) id = Some t /\ tk_future t = [] /\ tk_execs t = 0 /\ recvd id tr = [] /\
+    pstep nw lim (SubFut k id b) (c_sh c) =
+      Next (SubRUnlock k) (set_task (c_sh c) id (Task (tk_ctx t) (tk_gate t) [TCanceled] 0)).
+Proof. exact cancelled_submission_delivers. Qed.
+
+Print Assumptions C17_Do_select_enabled_when_cancelled.
+Print Assumptions C17_Cancelled_submission_delivers.
